@@ -265,6 +265,12 @@ class Program:
         if pren:
             self.normalisation_log += pren
             self._reindex()
+        from .normalize import wrapper_ctor_param_renames
+
+        cren = wrapper_ctor_param_renames(self)
+        if cren:
+            self.normalisation_log += cren
+            self._reindex()
         from .normalize import specialise_module_closures
 
         spec = specialise_module_closures(self)
